@@ -185,6 +185,7 @@ func worker(args []string) int {
 	}
 	capturePristine()
 	loadKnown(*known)
+	initHookLocking()
 	if p.Init != nil {
 		p.Init()
 	}
@@ -207,7 +208,7 @@ func worker(args []string) int {
 			break
 		}
 		// determinism self-check on a 1% sample: same tape, same process
-		if i%100 == 7%100 || i < *stride {
+		if (i%100 == 7%100 || i < *stride) && !lockHooks {
 			res2, _ := runTape(p, *tier, ReplayTape(res.Tape), false, agg)
 			out.DetChecked++
 			if res2.EvHash != res.EvHash || (res2.V != nil) != (res.V != nil) {
